@@ -33,8 +33,33 @@ def skip_profile(f: FuncInfo) -> Dict[str, object]:
         if isinstance(n, ast.Call) and isinstance(n.func, ast.Attribute) and isinstance(n.func.value, ast.Name) and n.func.value.id == "self" \
                 and n.func.attr in ("visit", "transform") and not S.guards_of(n, parents):
             prof["unguarded_recursions"] += 1
+    def on_error_path(n: ast.AST) -> bool:
+        """The block that ends in this skip records or returns an error first: leaving early there is the error path of the
+        function, not a decision to leave something unexamined."""
+        blk = parents.get(id(n))
+        for fld in ("body", "orelse", "finalbody"):
+            b = getattr(blk, fld, None)
+            if isinstance(b, list) and any(n is x for x in b):
+                for st in b:
+                    for c in ast.walk(st):
+                        if isinstance(c, ast.Call):
+                            d = ast.unparse(c.func)
+                            if d.endswith(("errors.append", "errors.extend", "Error")) or d.endswith("write_error_report"):
+                                return True
+                    if st is n:
+                        break
+        if isinstance(n, ast.Return) and n.value is not None:
+            v = n.value
+            if isinstance(v, ast.Tuple) and len(v.elts) == 2 and isinstance(v.elts[0], ast.Constant) and v.elts[0].value is None:
+                return True  # return None, <error>
+            if isinstance(v, ast.Constant) and isinstance(v.value, int) and not isinstance(v.value, bool) and v.value != 0:
+                return True  # non-zero exit code
+        return False
+
     for n in ast.walk(f.node):
         kind = None
+        if isinstance(n, (ast.Continue, ast.Break, ast.Return)) and on_error_path(n):
+            continue
         if isinstance(n, ast.Continue):
             kind = "continue"
         elif isinstance(n, ast.Break):
